@@ -50,6 +50,7 @@ type Origin struct {
 	paths map[string]Behaviour
 	def   *Behaviour
 	hits  []Hit
+	infl  map[string]int // requests received and not yet answered, per path
 	start time.Time
 	// Fragment: send every response body in two pieces with a flush and a pause in between
 	// (a client that reads the body with a single Read sees only the first piece)
@@ -66,7 +67,7 @@ func New() *Origin {
 	if err != nil {
 		panic(err)
 	}
-	o := &Origin{paths: map[string]Behaviour{}, start: time.Now(), ln: ln, addr: ln.Addr().String()}
+	o := &Origin{paths: map[string]Behaviour{}, infl: map[string]int{}, start: time.Now(), ln: ln, addr: ln.Addr().String()}
 	o.srv = &http.Server{Handler: http.HandlerFunc(o.serve)}
 	o.srv.SetKeepAlivesEnabled(false)
 	go func() { _ = o.srv.Serve(ln) }()
@@ -84,6 +85,13 @@ func (o *Origin) Set(path string, b Behaviour) {
 	o.mu.Unlock()
 }
 
+// InFlight returns the number of requests for path that were received and not yet answered.
+func (o *Origin) InFlight(path string) int {
+	o.mu.Lock()
+	defer o.mu.Unlock()
+	return o.infl[path]
+}
+
 // SetDefault scripts every path not set explicitly.
 func (o *Origin) SetDefault(b Behaviour) {
 	o.mu.Lock()
@@ -95,6 +103,12 @@ func (o *Origin) serve(w http.ResponseWriter, r *http.Request) {
 	recv := time.Since(o.start)
 	req, _ := io.ReadAll(r.Body)
 	o.mu.Lock()
+	o.infl[r.URL.Path]++
+	defer func() {
+		o.mu.Lock()
+		o.infl[r.URL.Path]--
+		o.mu.Unlock()
+	}()
 	b, ok := o.paths[r.URL.Path+"?"+r.URL.RawQuery] // a script may be keyed by path?query
 	if !ok {
 		b, ok = o.paths[r.URL.Path]
